@@ -654,6 +654,36 @@ def _aff(p):
     return ('n' if p[0] == 1 else '%d*n' % p[0] if p[0] else '') + ('%+d' % p[1] if p[1] or not p[0] else '')
 
 
+
+def check_counter_writers(ix, rep):
+    """who may write the counter: the interpreters count (`+ 1` in the out-of-tolerance arm, restart at 0 in constructor / reset / setter); nothing
+    in rtamt/spec, rtamt/syntax or anywhere else assigns `<x>.sampling_violation_counter` -- a wrapper that puts an earlier reading back ("these
+    gaps were counted before") makes the counter miss the gaps of data it never saw"""
+    n = 0
+    for m in sorted(ix.modules.values(), key=lambda m_: m_.rel):
+        if ix.unimportable(m):
+            continue
+        n += 1
+        owner_ok = m.rel.startswith('rtamt/semantics/')
+        for x in ast.walk(m.tree):
+            tg = []
+            if isinstance(x, ast.Assign):
+                tg = x.targets
+            elif isinstance(x, ast.AugAssign):
+                tg = [x.target]
+            elif isinstance(x, ast.Call) and isinstance(x.func, ast.Name) and x.func.id == 'setattr' and len(x.args) >= 2 and isinstance(x.args[1], ast.Constant) \
+                    and 'sampling_violation_counter' in str(x.args[1].value):
+                tg = [ast.Attribute(value=x.args[0], attr='sampling_violation_counter', ctx=ast.Store())]
+            for t in tg:
+                if isinstance(t, ast.Attribute) and 'sampling_violation_counter' in t.attr:
+                    recv = ast.unparse(t.value)
+                    if owner_ok and recv == 'self':
+                        continue
+                    rep.fail('R-OWN', m.rel, m.name, 'counter-writer:%s' % recv, '`%s.%s` is assigned outside the interpreter that counts: the counter no longer is the number of bad gaps '
+                             'among the time-stamps supplied' % (recv, t.attr), getattr(x, 'lineno', 0))
+    rep.ok('R-OWN', 'rtamt', 'package', 'counter-writers', 'only the interpreters assign their own sampling_violation_counter', 0)
+    return n
+
 def check(ix, rep):
     mons = {m.kind: m for m in M.standard_monitors(ix)}
     on, off = mons['discrete-online'], mons['discrete-offline']
@@ -674,6 +704,7 @@ def check(ix, rep):
     rep.floor('hand-overs of the time-stamp from the specification to the interpreter', nts, 1)
     ng = units.check_counted_getters(ix, rep)
     rep.floor('interpreters a counted quantity is read from', ng, 2)
+    rep.floor('modules scanned for writers of the counter', check_counter_writers(ix, rep), 20)
     # reset restarts the counter (shared with C10)
     rs = [f for f in (ix.resolve_method(on.cls, 'reset'),) if f]
     # the assignment of 0 may sit in reset() itself or in a method it calls (a helper, super().reset(), a base-class constructor)
